@@ -25,6 +25,7 @@ import (
 	"mycoverif/core"
 	"mycoverif/ident"
 	"mycoverif/linkpair"
+	"mycoverif/mesh"
 	"mycoverif/node"
 	"mycoverif/simnet"
 	"mycoverif/simsync"
@@ -113,11 +114,107 @@ func registryUnderTasks(e *core.Env) {
 	e.Probe("registry_methods_as_concurrent_tasks")
 }
 
+// announcementOvertakenByClose: three complete routers in a line, converged. An announcement of
+// the middle router has been read from the link by an end router's link reader (it is on its
+// way through switch and router workers) when that link goes down - local close, or the remote
+// end's EOF. Frames that were read before a link closed are handled after it closed; whatever
+// the handler does with them, at the next quiescent point the table holds no route over a peer
+// without a live link, and a peer route for exactly the live links.
+func announcementOvertakenByClose(e *core.Env) {
+	tp := e.Tape
+	ms := mesh.Build(e, mesh.Options{MinNodes: 3, MaxNodes: 3, Kinds: []string{"line"}, TwoByteLabels: true})
+	ms.Net.RunFor(tp, 5*time.Second+200*time.Millisecond, 20000)
+	ms.Net.DrainFIFO(tp, 20000)
+	A, B := ms.Nodes[0], ms.Nodes[1]
+	if tp.Chance(1, 2) {
+		A = ms.Nodes[2]
+	}
+	before := map[*simnet.Packet]bool{}
+	for _, p := range ms.Net.Pending() {
+		before[p] = true
+	}
+	if tp.Chance(1, 2) {
+		_ = B.Router.AnnouncePing.Send(A.IP)
+	} else {
+		// an announcement of the far router, relayed by B
+		far := ms.Nodes[2]
+		if A == far {
+			far = ms.Nodes[0]
+		}
+		_ = far.Router.AnnouncePing.Send(B.IP)
+		simnet.Wait()
+		for _, p := range ms.Net.Pending() {
+			if !before[p] && p.To.Local == B {
+				ms.Net.Deliver(p)
+			}
+		}
+	}
+	simnet.Wait()
+	var ann *simnet.Packet
+	for _, p := range ms.Net.Pending() {
+		if !before[p] && p.From.Local == B && p.To.Local == A && !p.EOF {
+			ann = p
+			break
+		}
+	}
+	lA, _ := A.Peering.GetLink(B.IP).(*simnet.Link)
+	if ann == nil || lA == nil {
+		return
+	}
+	ms.Net.Remove(ann)
+	ann.NoDelay = true
+	ms.Net.DeliverRaw(ann) // read by the link reader: in the hands of A's workers from here on
+	if tp.Chance(1, 2) {
+		lA.Close(nil) // A closes locally ...
+	} else {
+		lA.Other.Close(nil) // ... or B does and its EOF arrives
+		for _, p := range ms.Net.Pending() {
+			if p.EOF && p.To == lA {
+				ms.Net.Remove(p)
+				p.NoDelay = true
+				ms.Net.DeliverRaw(p)
+			}
+		}
+	}
+	simnet.Wait()
+	ms.Net.DrainFIFO(tp, 5000)
+	ms.CheckPanics("worker-panic")
+	e.Fault("link_close_overtakes_announcement")
+	for _, nd := range []*node.Node{A, B} {
+		live := map[netip.Addr]bool{}
+		for _, l := range nd.Peering.GetLinks() {
+			if !l.IsClosing() {
+				live[l.Peer()] = true
+			}
+		}
+		peerRoute := map[netip.Addr]bool{}
+		for _, en := range nd.Router.Table().VerifEntries() {
+			if !live[en.NextHop] {
+				e.Fail("route-over-peer-without-live-link/announcement-handled-after-close",
+					"%s: an announcement was read from the link to %s before that link closed and handled after: the table holds a route to %s (source %v) whose next hop %s has no live link",
+					nd.Name, B.Name, en.DstIP, en.Source, en.NextHop)
+			}
+			if en.Source == m.RouteSourcePeer {
+				peerRoute[en.DstIP] = true
+			}
+		}
+		for ip := range live {
+			if !peerRoute[ip] {
+				e.Fail("peer-route-missing", "%s: live link to %s but no direct-peer route", nd.Name, ip)
+			}
+		}
+	}
+	e.Probe("announcement_read_before_close_handled_after")
+}
+
 func run(e *core.Env) {
 	tp := e.Tape
 	e.StartClock()
 	if tp.Chance(1, 4) {
 		registryUnderTasks(e)
+	}
+	if tp.Chance(1, 5) {
+		announcementOvertakenByClose(e)
 	}
 	// Scheduling points inside the registry code: peering/ and m/ are compiled against
 	// simsync, so every Lock/Unlock/RLock/RUnlock there calls this hook, which hands the
